@@ -356,7 +356,7 @@ CHECKS["C15"] = dict(
 
 CHECKS["C07"] = dict(
     level="model_checking",
-    jobs=lambda tier: [dict(name="c07", variant="pic", sources=["e_c07.c"] + RT)],
+    jobs=lambda tier: [dict(name="c07", variant="pic", sources=["e_c07.c"] + RT, flags=["-DVH_MALLOC_SEAM"])],
     coverage=lambda stats, tier: dict(
         states=int(stats.get("distinct_states", stats.get("states", 0))), transitions=int(stats.get("transitions", 0)),
         traces_validated_against_impl=int(stats.get("transitions", 0)),
